@@ -274,7 +274,9 @@ func (r *transport) handleCacheMiss(
 		return nil, err
 	}
 	ccResp := internal.ParseCCResponseDirectives(resp.Header)
-	if r.ce.CanStoreResponse(resp, ccReq, ccResp) {
+	// A 304 here answers the client's own conditional request; it is not a
+	// representation and must not be stored (RFC 9111 §3).
+	if resp.StatusCode != http.StatusNotModified && r.ce.CanStoreResponse(resp, ccReq, ccResp) {
 		_ = r.rs.StoreResponse(req, resp, urlKey, refs, start, end, refIndex)
 	}
 	internal.CacheStatusMiss.ApplyTo(resp.Header)
